@@ -221,6 +221,7 @@ def buildCmd (name : String) (args : List String) : String :=
   | "htlc2_shake256_lock", [dg, rc, rf, hs, dl, f] => hx (Tools.htlc2Lock H (Tools.SHAKE256 (n hs)) (hb dg) (hb rc) (hb rf) (n hs) (z dl) (n f))
   | "ptlc_lock", [rc, rf, tw, dl, f] => showR (Tools.ptlcLock C (hb rc) (hb rf) (if tw = "none" then none else some (hb tw)) (z dl) (n f))
   | "adapter_lock1", [pk, tp, f] => hx (Tools.adapterLock1 (hb pk) (hb tp) (n f))
+  | "adapter_lock_pub", [pk, tp, f] => hx (Tools.adapterLockPub (hb pk) (hb tp) (n f))
   | "adapter_decrypt", [tw] => showR (Tools.adapterDecrypt (hb tw))
   | "delegate_key_lock", [rt, f] => hx (Tools.delegateKeyLock (hb rt) (n f))
   | "delegate_key_chain_lock", [rt, f] => hx (Tools.delegateKeyChainLock (hb rt) (n f))
